@@ -1344,13 +1344,13 @@ pub fn exec_value(plan: &serde_json::Value, tag: &str) -> crate::props::RunResul
     let plan: Plan = match serde_json::from_value(plan.clone()) {
         Ok(p) => p,
         Err(e) => {
-            return RunResult { violation: None, harness: Some(format!("bad plan: {}", e)), probes: BTreeMap::new(), decisions: 0, sim_ms: 0, trace: vec![], choices: vec![] }
+            return RunResult { violation: None, harness: Some(format!("bad plan: {}", e)), probes: BTreeMap::new(), decisions: 0, sim_ms: 0, trace: vec![], choices: vec![], plan_patch: None }
         }
     };
     let mut ex = match Exec::new(tag, plan.seed, plan.follower) {
         Ok(e) => e,
-        Err(Stop::Harness(h)) => return RunResult { violation: None, harness: Some(h), probes: BTreeMap::new(), decisions: 0, sim_ms: 0, trace: vec![], choices: vec![] },
-        Err(Stop::Violation(v)) => return RunResult { violation: Some(v), harness: None, probes: BTreeMap::new(), decisions: 0, sim_ms: 0, trace: vec![], choices: vec![] },
+        Err(Stop::Harness(h)) => return RunResult { violation: None, harness: Some(h), probes: BTreeMap::new(), decisions: 0, sim_ms: 0, trace: vec![], choices: vec![], plan_patch: None },
+        Err(Stop::Violation(v)) => return RunResult { violation: Some(v), harness: None, probes: BTreeMap::new(), decisions: 0, sim_ms: 0, trace: vec![], choices: vec![], plan_patch: None },
     };
     let res = std::panic::catch_unwind(std::panic::AssertUnwindSafe(|| ex.run_plan(&plan)));
     let (violation, harness) = match res {
@@ -1363,5 +1363,5 @@ pub fn exec_value(plan: &serde_json::Value, tag: &str) -> crate::props::RunResul
         ),
     };
     let (probes, decisions, sim_ms, trace) = ex.finish();
-    RunResult { violation, harness, probes, decisions, sim_ms, trace, choices: vec![] }
+    RunResult { violation, harness, probes, decisions, sim_ms, trace, choices: vec![], plan_patch: None }
 }
